@@ -141,13 +141,25 @@ func (s *Share[E]) ToAdditive(to *unanimity.Unanimity) (*additive.Share[E], erro
 	if s == nil {
 		return nil, sharing.ErrIsNil.WithMessage("share is nil")
 	}
+	if len(s.v) == 0 {
+		return nil, sharing.ErrArgument.WithMessage("share has no components to take the group from, use Scheme.ConvertShareToAdditive")
+	}
+	group := algebra.StructureMustBeAs[algebra.Group[E]](slices.Collect(maps.Values(s.v))[0].Structure())
+	return s.toAdditive(group, to)
+}
+
+// toAdditive is ToAdditive over the given group. A share without components
+// (every piece is implicitly the identity) converts to the identity.
+func (s *Share[E]) toAdditive(group algebra.Group[E], to *unanimity.Unanimity) (*additive.Share[E], error) {
+	if s == nil {
+		return nil, sharing.ErrIsNil.WithMessage("share is nil")
+	}
 	if to == nil {
 		return nil, sharing.ErrIsNil.WithMessage("access structure is nil")
 	}
 	if !to.Shareholders().Contains(s.id) {
 		return nil, sharing.ErrMembership.WithMessage("share ID %d is not in access structure", s.id)
 	}
-	group := algebra.StructureMustBeAs[algebra.Group[E]](slices.Collect(maps.Values(s.v))[0].Structure())
 	shareValue := group.OpIdentity()
 	for maxUnqualifiedSet, additiveShare := range s.v {
 		p, err := pivot(maxUnqualifiedSet, to)
